@@ -148,8 +148,12 @@ func wTables() []wTable {
 		wValueTable("JSONWriteIntransitiveActivityValue", ap.IntransitiveActivity{}, func(b *[]byte, v reflect.Value) bool {
 			return ap.JSONWriteIntransitiveActivityValue(b, v.Interface().(ap.IntransitiveActivity))
 		}),
-		wValueTable("JSONWriteActivityValue", ap.Activity{}, func(b *[]byte, v reflect.Value) bool { return ap.JSONWriteActivityValue(b, v.Interface().(ap.Activity)) }),
-		wValueTable("JSONWriteQuestionValue", ap.Question{}, func(b *[]byte, v reflect.Value) bool { return ap.JSONWriteQuestionValue(b, v.Interface().(ap.Question)) }),
+		wValueTable("JSONWriteActivityValue", ap.Activity{}, func(b *[]byte, v reflect.Value) bool {
+			return ap.JSONWriteActivityValue(b, v.Interface().(ap.Activity))
+		}),
+		wValueTable("JSONWriteQuestionValue", ap.Question{}, func(b *[]byte, v reflect.Value) bool {
+			return ap.JSONWriteQuestionValue(b, v.Interface().(ap.Question))
+		}),
 		wValueTable("JSONWriteLinkValue", ap.Link{}, func(b *[]byte, v reflect.Value) bool { return ap.JSONWriteLinkValue(b, v.Interface().(ap.Link)) }),
 	)
 	return ts
@@ -327,7 +331,9 @@ func jsondynWrite(outDir string, rep *Report) {
 			all.Field(p.fi).Set(p.val)
 		}
 		allObs := tb.call(all)
-		sort.SliceStable(pres, func(i, j int) bool { return index(allObs.members, pres[i].names) < index(allObs.members, pres[j].names) })
+		sort.SliceStable(pres, func(i, j int) bool {
+			return index(allObs.members, pres[i].names) < index(allObs.members, pres[j].names)
+		})
 		pair := func(x, y present) {
 			sv := reflect.New(tb.rt).Elem()
 			sv.Field(x.fi).Set(x.val)
@@ -400,7 +406,7 @@ var rProbeJSON = []struct {
 type rTable struct {
 	name string
 	rt   reflect.Type
-	wrap string                                         // the member the one-member object is put under, or ""
+	wrap string                                          // the member the one-member object is put under, or ""
 	call func(val *fastjson.Value) (reflect.Value, bool) // the struct as the function leaves it; false = nothing came back
 }
 
